@@ -229,6 +229,8 @@ var initCertOnce sync.Once
 func InitProcess() {
 	initCertOnce.Do(func() {
 		runtime.GOMAXPROCS(1)
+		// hellos without any extension can only use RSA key exchange
+		os.Setenv("GODEBUG", "tlsrsakex=1")
 		dir := os.Getenv("VERIF_TESTDATA")
 		if dir == "" {
 			dir = "/verif/testdata"
